@@ -314,7 +314,9 @@ def r06_4_dtime(chk):
             st.add(ge(ls, lo_))
             st.add(le(ls, hi_))
             lattrs[n_] = IntV(ls)
-        lattrs["month"] = IntV(month)
+        # (the local date-time lies in another month than its UTC form, as it can around midnight on the last day: a
+        #  field read from the unconverted object then shows in the bytes)
+        lattrs["month"] = IntV(month % 12 + 1)
         local = StubV("datetime", attrs=lattrs, methods={"astimezone": astimezone})
         outs = it.call_function(f, [local], {}, st, f.node)
         chk.require(bool(utc_calls) and all("utc" in c.lower() for c in utc_calls), "R06.4",
